@@ -563,6 +563,19 @@ def cases(draw, max_events=40):
         m = edges[b] if cls == "edge" else (edges[b] + hf / 2 if cls == "mid" else edges[-1] + 3.5 * hf)
         has_edge = has_edge or cls == "edge" or fx == 0
         ev.append([lon, lat, m])
+    # catalogs that arrive already ordered (by longitude, by magnitude, descending) or with all events distinct: data-dependent
+    # shortcuts in the gridding must agree with the general path
+    order = draw(st.sampled_from([None, None, None, "lon", "mag", "mag_desc", "lat_lon", "distinct"]))
+    if order == "lon":
+        ev.sort(key=lambda e: (e[0], e[1]))
+    elif order == "lat_lon":
+        ev.sort(key=lambda e: (e[1], e[0]))
+    elif order == "mag":
+        ev.sort(key=lambda e: e[2])
+    elif order == "mag_desc":
+        ev.sort(key=lambda e: -e[2])
+    elif order == "distinct":
+        ev = [list(t) for t in dict.fromkeys(tuple(e) for e in ev)]
     keyset = [tuple(e) for e in ev]
     case = {"family": "in_domain", "region": rc, "mags": mc, "events": ev, "has_dup": len(set(keyset)) < len(keyset), "has_edge": has_edge}
     if mc["n"] >= 2 and draw(st.integers(0, 2)) == 0:
